@@ -3,7 +3,10 @@
    runs when a proof breaks.
 
    Time is an integer (the harness uses microseconds since a base instant);
-   the clock is part of the state and moves only by the [Advance] operation.
+   the clock is part of the state and moves only by the [Advance] operation,
+   by any amount (the harness steps it by microseconds, seconds, hours, whole
+   days and days plus a remainder; elapsed time is the plain difference
+   [now - since], never reduced modulo anything).
    [max_lifetime] / [idle_timeout] are the values of the attributes of the
    constructed object (None, or a timedelta in the same unit); a zero
    timedelta is falsy in Python, hence "no limit".
@@ -311,6 +314,20 @@ Definition valid_op (o : op) : Prop :=
   match o with
   | Tick c => 0 <= c
   | Renew (Some a) _ => 0 <= a
+  | _ => True
+  end.
+
+(* the clock does not run backwards ("clock advance"); the amount is not
+   bounded: seconds, days, years *)
+Definition forward_op (o : op) : Prop :=
+  match o with Advance d => 0 <= d | _ => True end.
+
+(* a call that is no activity: it does not refresh _last_activity (tick and
+   heartbeat do; reset forgets it) and does not turn the clock back *)
+Definition quiet_op (o : op) : Prop :=
+  match o with
+  | Tick _ | Heartbeat | Reset => False
+  | Advance d => 0 <= d
   | _ => True
   end.
 
